@@ -49,6 +49,7 @@ type FuncSpec struct {
 type GhostSet struct {
 	Loc, Val *CExpr
 	Src      string
+	Local    bool // value mentions locals of the function: evaluated only when the body is verified
 }
 
 type LoopSpec struct {
@@ -58,6 +59,7 @@ type LoopSpec struct {
 	Decreases  *CExpr
 	NoAuto     bool
 	Exits      []*Clause
+	BackEdges  []*Clause // transition clauses: x is the header value, x1 the value carried to the next iteration
 }
 
 type Macro struct {
@@ -151,6 +153,12 @@ func loadSpecFile(path string, required bool) {
 			curL = &LoopSpec{Fn: parts[0], Ordinal: n}
 			curF = nil
 			specs.Loops[fmt.Sprintf("%s#%d", parts[0], n)] = curL
+		case "backedge":
+			if curL == nil {
+				fatal("%s: backedge outside loop", where)
+			}
+			labels, src := splitLabels(rest)
+			curL.BackEdges = append(curL.BackEdges, &Clause{Kind: "backedge", Labels: labels, E: parseCExpr(src, where), Src: src, Where: where})
 		case "exit":
 			if curL == nil {
 				fatal("%s: exit outside loop", where)
@@ -194,13 +202,13 @@ func loadSpecFile(path string, required bool) {
 			for _, part := range splitTop(src, ',') {
 				curF.Preserves = append(curF.Preserves, &Clause{Kind: "preserves", Labels: labels, E: parseCExpr(part, where), Src: strings.TrimSpace(part), Where: where})
 			}
-		case "ghostset":
+		case "ghostset", "ghostlocal":
 			// ghostset field(x) = expr : ghost assignment executed at function exit
 			eq := strings.Index(rest, " = ")
 			if eq < 0 || curF == nil {
-				fatal("%s: ghostset <loc> = <expr>", where)
+				fatal("%s: %s <loc> = <expr>", where, kw)
 			}
-			curF.GhostSets = append(curF.GhostSets, &GhostSet{Loc: parseCExpr(rest[:eq], where), Val: parseCExpr(rest[eq+3:], where), Src: rest})
+			curF.GhostSets = append(curF.GhostSets, &GhostSet{Loc: parseCExpr(rest[:eq], where), Val: parseCExpr(rest[eq+3:], where), Src: rest, Local: kw == "ghostlocal"})
 		case "mayglobal":
 			if curF.MayGlobal == nil {
 				curF.MayGlobal = map[string]bool{}
